@@ -137,17 +137,49 @@ Definition delete_keys (p : keyrow -> bool) (d : db) : db * Z :=
     else d1 in
   (d2, zlen gone).
 
+(* rlist_on_delete, fired once per deleted row: version+1, mtime, len-1 *)
+Definition trig_list_delete (now : Z) (kid : Z) (n : Z) (d : db) : db :=
+  if n =? 0 then d else
+  upd_key_id kid (fun r => with_len (with_mtime (with_ver r (k_ver r + n)) now) (opt_add (k_len r) (- n))) d.
+
+(* rkey_on_insert (BEFORE INSERT on rkey, WHEN the row holding new.key has
+   etime <= new.mtime): the expired row loses its elements (the rlist deletes
+   fire rlist_on_delete), its expiry and its type; the insert then merges into
+   it through "on conflict" as into an empty key of the new type. *)
+Definition reset_expired (now : Z) (key : bytes) (typ : Z) (d : db) : db :=
+  match find_key d key with
+  | Some r =>
+      if expired now r then
+        let id := k_id r in
+        let nl := zlen (filter (fun x => l_kid x =? id) (rlist d)) in
+        let d1 := mkDb (rkey d)
+                       (filter (fun x => negb (s_kid x =? id)) (rstring d))
+                       (filter (fun x => negb (l_kid x =? id)) (rlist d))
+                       (filter (fun x => negb (e_kid x =? id)) (rset d))
+                       (filter (fun x => negb (h_kid x =? id)) (rhash d))
+                       (filter (fun x => negb (z_kid x =? id)) (rzset d))
+                       (fk_on d) in
+        let d2 := trig_list_delete now id nl d1 in
+        upd_key_id id (fun x => mkKey (k_id x) (k_key x) typ (k_ver x) None (k_mtime x)
+                                      (if typ =? 1 then None else Some 0)) d2
+      else d
+  | None => d
+  end.
+
 (* ---------- the type-guarded upsert every creating write starts with ----------
    insert into rkey (key, type, version, etime?, mtime, len?) values (...)
    on conflict (key) do update set
      type = case when type = excluded.type then type else null end,
      version = version+1, [etime = excluded.etime,] mtime = excluded.mtime [, len = len+1]
    A type mismatch makes [type] NULL, the NOT NULL constraint aborts the statement
-   and nothing changes.  Note that the conflict branch never looks at etime. *)
+   and nothing changes (the trigger's work included: the statement is atomic).
+   The conflict branch never looks at etime; an expired row has been reset by
+   the rkey_on_insert trigger before. *)
 Definition upsert_key (now : Z) (key : bytes) (typ : Z)
            (new_etime : option Z) (new_len : option Z)
            (on_conflict : keyrow -> keyrow) : M keyrow :=
-  fun d =>
+  fun d0 =>
+    let d := reset_expired now key typ d0 in
     match find_key d key with
     | None =>
         let r := mkKey (next_key_id d) key typ 1 new_etime now new_len in
@@ -156,7 +188,7 @@ Definition upsert_key (now : Z) (key : bytes) (typ : Z)
         if k_type r =? typ then
           let r' := on_conflict (with_mtime (with_ver r (k_ver r + 1)) now) in
           (upd_key_id (k_id r) (fun _ => r') d, Ok r')
-        else (d, Err (ESql (SqNotNull "rkey.type")))
+        else (d0, Err (ESql (SqNotNull "rkey.type")))
     end.
 
 (* sqlx.TypedError *)
